@@ -1623,9 +1623,10 @@ where
         if packet.qos() == Qos::AtLeastOnce || packet.qos() == Qos::ExactlyOnce {
             // Register packet ID for QoS 1 or 2
             let packet_id = packet.packet_id().unwrap();
-            if self.status != ConnectionStatus::Connected
+            if (self.status != ConnectionStatus::Connected
                 && !self.need_store
-                && !self.offline_publish
+                && !self.offline_publish)
+                || (self.status == ConnectionStatus::Disconnected && !self.offline_publish)
             {
                 events.push(GenericEvent::NotifyError(MqttError::PacketNotAllowedToSend));
                 if self.pid_man.is_used_id(packet_id) {
@@ -1641,8 +1642,9 @@ where
                 ));
                 return events;
             }
-            if self.need_store
-                && (self.status != ConnectionStatus::Disconnected || self.offline_publish)
+            if (self.need_store
+                && (self.status != ConnectionStatus::Disconnected || self.offline_publish))
+                || (self.offline_publish && self.status != ConnectionStatus::Connected)
             {
                 let store_packet = packet.clone().set_dup(true);
                 self.store.add(store_packet.try_into().unwrap()).unwrap();
@@ -1690,9 +1692,10 @@ where
         let mut topic_alias_validated = false;
         if packet.qos() == Qos::AtLeastOnce || packet.qos() == Qos::ExactlyOnce {
             let packet_id = packet.packet_id().unwrap();
-            if self.status != ConnectionStatus::Connected
+            if (self.status != ConnectionStatus::Connected
                 && !self.need_store
-                && !self.offline_publish
+                && !self.offline_publish)
+                || (self.status == ConnectionStatus::Disconnected && !self.offline_publish)
             {
                 events.push(GenericEvent::NotifyError(MqttError::PacketNotAllowedToSend));
                 if self.pid_man.is_used_id(packet_id) {
@@ -1711,8 +1714,9 @@ where
                 return events;
             }
 
-            if self.need_store
-                && (self.status != ConnectionStatus::Disconnected || self.offline_publish)
+            if (self.need_store
+                && (self.status != ConnectionStatus::Disconnected || self.offline_publish))
+                || (self.offline_publish && self.status != ConnectionStatus::Connected)
             {
                 let ta_opt = Self::get_topic_alias_from_props(packet.props());
                 if packet.topic_name().is_empty() {
